@@ -491,6 +491,43 @@ func runSerialExtra(raw json.RawMessage, seed int64) (res Result) {
 			}
 		}
 	}
+	// infinity encodings (flag byte 0xC0) followed by anything but zeros are not canonical, whatever the pattern of the tail:
+	// all tail bytes equal, alternating, a run of equal bytes, only the first / last few set
+	for _, size := range []int{48, 96} {
+		tails := [][]byte{}
+		for _, v := range []byte{0x01, 0x55, 0x80, 0xff, 0xC0} {
+			t := bytes.Repeat([]byte{v}, size-1)
+			tails = append(tails, t)
+			alt := make([]byte, size-1)
+			for i := range alt {
+				if i%2 == 0 {
+					alt[i] = v
+				}
+			}
+			tails = append(tails, alt)
+			for _, run := range []int{2, 7, 8, 9, 16, size - 2} {
+				head := make([]byte, size-1)
+				copy(head, bytes.Repeat([]byte{v}, run))
+				tails = append(tails, head)
+				tl := make([]byte, size-1)
+				copy(tl[size-1-run:], bytes.Repeat([]byte{v}, run))
+				tails = append(tails, tl)
+			}
+		}
+		for _, t := range tails {
+			b := append([]byte{0xC0}, t...)
+			res.Evals++
+			if size == 48 {
+				if out, err := crypto.AggregateBLSSignatures([]crypto.Signature{b}); err == nil {
+					add("AcceptsExactlyCanonical", fmt.Sprintf("AggregateBLSSignatures accepts the non-canonical infinity encoding %x (returns %x)", b, []byte(out)))
+				}
+			} else {
+				if pk, err := crypto.DecodePublicKey(crypto.BLSBLS12381, b); err == nil {
+					add("AcceptsExactlyCanonical", fmt.Sprintf("DecodePublicKey(BLS) accepts the non-canonical infinity encoding %x (re-encodes to %x)", b, pk.Encode()))
+				}
+			}
+		}
+	}
 	// signature strings inside LISTS: every entry is parsed on its own, so entries whose lengths compensate each other, or one
 	// bad entry at any position among valid ones, are rejected (aggregation, batch verification, threshold reconstruction)
 	{
